@@ -167,6 +167,7 @@ type vcOpts struct {
 	frame        bool
 	safety       bool
 	onlySafety   bool // drop the functional goals (cases the statement leaves open)
+	altDiff      bool // use the [diffalt] clause instead of [diff] (known-finding obligations)
 	replay       *ReplaySpec
 	info         map[string]string
 }
@@ -220,8 +221,11 @@ func (ld *Loaded) contractVC(c *Contract, o vcOpts) (vc *VC, err error) {
 		if o.onlySafety {
 			break
 		}
+		if cl.Label == "diffalt" && !o.altDiff || cl.Label == "diff" && o.altDiff {
+			continue
+		}
 		r := x.evalPred(cl.Fn, inst.args, pre, rst, nil, results).(*Term)
-		if cl.Label == "diff" {
+		if cl.Label == "diff" || cl.Label == "diffalt" {
 			d := r
 			for _, n := range names {
 				if o.comps != nil && !o.comps[n] {
